@@ -29,10 +29,10 @@ func init() {
 
 var bdhkeProps = []string{"C10"}
 
-func edgeScalar(r *Rng) (*secp256k1.PrivateKey, string) {
+func dvEdgeScalar(r *Rng) (*secp256k1.PrivateKey, string) {
 	n := smN
 	mk := func(v int64, fromN bool) *secp256k1.PrivateKey {
-		x := bigFrom(v)
+		x := dvBigFrom(v)
 		if fromN {
 			x.Sub(n, x)
 		}
@@ -59,11 +59,11 @@ func edgeScalar(r *Rng) (*secp256k1.PrivateKey, string) {
 		b[31] |= 1
 		return secp256k1.PrivKeyFromBytes(b), "lz"
 	default:
-		return randScalar(r), "random"
+		return dvRandScalar(r), "random"
 	}
 }
 
-func genSecret(r *Rng) (string, string) {
+func dvGenSecret(r *Rng) (string, string) {
 	switch r.Intn(9) {
 	case 0:
 		return "", "empty"
@@ -121,11 +121,11 @@ func runBdhkeSpec(c *Ctx) {
 		}
 	}
 
-	comp := func(p *secp256k1.PublicKey) Sx { return hx(p.SerializeCompressed()) }
+	comp := func(p *secp256k1.PublicKey) Sx { return dvHex(p.SerializeCompressed()) }
 	n := 420 * scale
 	for i := 0; i < n; i++ {
-		secret, sc := genSecret(r)
-		rk, rc := edgeScalar(r)
+		secret, sc := dvGenSecret(r)
+		rk, rc := dvEdgeScalar(r)
 		var k *secp256k1.PrivateKey
 		kc := "mint"
 		if i < len(mintKeys) && i < n/2 {
@@ -133,13 +133,13 @@ func runBdhkeSpec(c *Ctx) {
 		} else if r.Chance(50) && len(mintKeys) > 0 {
 			k = mintKeys[r.Intn(len(mintKeys))]
 		} else {
-			k, kc = edgeScalar(r)
+			k, kc = dvEdgeScalar(r)
 		}
 		key := fmt.Sprintf("bdhke/secret=%s/r=%s/k=%s", sc, rc, kc)
 		replay := map[string]any{"secret_hex": hex.EncodeToString([]byte(secret)), "r": hex.EncodeToString(rk.Serialize()), "k": hex.EncodeToString(k.Serialize())}
 		var B_, C_, C, K *secp256k1.PublicKey
 		var verified bool
-		out := protect(func() string {
+		out := dvProtect(func() string {
 			var err error
 			B_, _, err = crypto.BlindMessage(secret, rk)
 			if err != nil {
@@ -155,11 +155,11 @@ func runBdhkeSpec(c *Ctx) {
 			c.MonitorFail("C10", "bdhke-go-failed", "the BDHKE round trip failed or panicked: "+out, replay)
 			continue
 		}
-		sh, rh, kh := hx([]byte(secret)), hx(rk.Serialize()), hx(k.Serialize())
-		b.addFor(bdhkeProps, L(A("spec.blind"), sh, rh), okS(comp(B_)), key+"/blind", replay)
-		b.addFor(bdhkeProps, L(A("spec.sign"), comp(B_), kh), okS(comp(C_)), key+"/sign", replay)
-		b.addFor(bdhkeProps, L(A("spec.pub"), kh), okS(comp(K)), key+"/pub", replay)
-		b.addFor(bdhkeProps, L(A("spec.unblind"), comp(C_), rh, comp(K)), okS(comp(C)), key+"/unblind", replay)
+		sh, rh, kh := dvHex([]byte(secret)), dvHex(rk.Serialize()), dvHex(k.Serialize())
+		b.addFor(bdhkeProps, L(A("spec.blind"), sh, rh), dvOk(comp(B_)), key+"/blind", replay)
+		b.addFor(bdhkeProps, L(A("spec.sign"), comp(B_), kh), dvOk(comp(C_)), key+"/sign", replay)
+		b.addFor(bdhkeProps, L(A("spec.pub"), kh), dvOk(comp(K)), key+"/pub", replay)
+		b.addFor(bdhkeProps, L(A("spec.unblind"), comp(C_), rh, comp(K)), dvOk(comp(C)), key+"/unblind", replay)
 		b.addFor(bdhkeProps, L(A("spec.verify"), sh, kh, comp(C)), Render(B(verified)), key+"/verify", replay)
 		// monitors (model-free): verification succeeds; C == k·hash_to_curve(secret); so C does not depend on r
 		if !verified {
@@ -178,14 +178,14 @@ func runBdhkeSpec(c *Ctx) {
 		}
 		// a wrong key or a wrong secret must not verify (both sides)
 		if i%5 == 0 {
-			k2 := randScalar(r)
+			k2 := dvRandScalar(r)
 			bad := crypto.Verify(secret, k2, C)
-			b.addFor(bdhkeProps, L(A("spec.verify"), sh, hx(k2.Serialize()), comp(C)), Render(B(bad)), key+"/verify-wrong-key", replay)
+			b.addFor(bdhkeProps, L(A("spec.verify"), sh, dvHex(k2.Serialize()), comp(C)), Render(B(bad)), key+"/verify-wrong-key", replay)
 			if bad {
 				c.MonitorFail("C10", "verify-wrong-key-true", "crypto.Verify accepts a signature under another key", replay)
 			}
 			bad2 := crypto.Verify(secret+"x", k, C)
-			b.addFor(bdhkeProps, L(A("spec.verify"), hx([]byte(secret+"x")), kh, comp(C)), Render(B(bad2)), key+"/verify-wrong-secret", replay)
+			b.addFor(bdhkeProps, L(A("spec.verify"), dvHex([]byte(secret+"x")), kh, comp(C)), Render(B(bad2)), key+"/verify-wrong-secret", replay)
 			if bad2 {
 				c.MonitorFail("C10", "verify-wrong-secret-true", "crypto.Verify accepts a signature for another secret", replay)
 			}
@@ -194,7 +194,7 @@ func runBdhkeSpec(c *Ctx) {
 		if i%4 == 0 {
 			e, s := crypto.GenerateDLEQ(k, B_, C_)
 			good := crypto.VerifyDLEQ(e, s, K, B_, C_)
-			eh, sh2 := hx(e.Serialize()), hx(s.Serialize())
+			eh, sh2 := dvHex(e.Serialize()), dvHex(s.Serialize())
 			rp := map[string]any{"base": replay, "e": hex.EncodeToString(e.Serialize()), "s": hex.EncodeToString(s.Serialize())}
 			b.addFor(bdhkeProps, L(A("spec.dleqverify"), eh, sh2, comp(K), comp(B_), comp(C_)), Render(B(good)), key+"/dleq-honest", rp)
 			if !good {
@@ -202,9 +202,9 @@ func runBdhkeSpec(c *Ctx) {
 				c.MonitorFail("C10", "dleq-honest-rejected", "VerifyDLEQ rejects a proof made by GenerateDLEQ", rp)
 			}
 			he := crypto.HashE([]*secp256k1.PublicKey{K, B_, C_, C})
-			b.addFor(bdhkeProps, L(A("spec.hashe"), L(comp(K), comp(B_), comp(C_), comp(C))), okS(hx(he[:])), key+"/hashe", rp)
-			other := randScalar(r)
-			otherP := randScalar(r).PubKey()
+			b.addFor(bdhkeProps, L(A("spec.hashe"), L(comp(K), comp(B_), comp(C_), comp(C))), dvOk(dvHex(he[:])), key+"/hashe", rp)
+			other := dvRandScalar(r)
+			otherP := dvRandScalar(r).PubKey()
 			type tam struct {
 				name      string
 				e, s      *secp256k1.PrivateKey
@@ -216,7 +216,7 @@ func runBdhkeSpec(c *Ctx) {
 			}
 			t := tams[r.Intn(len(tams))]
 			v := crypto.VerifyDLEQ(t.e, t.s, t.A, t.B2, t.C2)
-			b.addFor(bdhkeProps, L(A("spec.dleqverify"), hx(t.e.Serialize()), hx(t.s.Serialize()), comp(t.A), comp(t.B2), comp(t.C2)),
+			b.addFor(bdhkeProps, L(A("spec.dleqverify"), dvHex(t.e.Serialize()), dvHex(t.s.Serialize()), comp(t.A), comp(t.B2), comp(t.C2)),
 				Render(B(v)), key+"/dleq-tamper-"+t.name, rp)
 			if v {
 				c.MonitorFail("C10", "dleq-tamper-accepted", "VerifyDLEQ accepts a proof with a changed "+t.name, rp)
